@@ -27,11 +27,13 @@ func failingPatches() []interface{} {
 		patchJSON(map[string]interface{}{"op": "test", "path": "/nope", "value": "x"}),
 		patchJSON(map[string]interface{}{"op": "add", "path": "/a/b/c", "value": 1.0}),
 		patchJSON(map[string]interface{}{"op": "add", "path": "/ok", "value": 1.0}, map[string]interface{}{"op": "remove", "path": "/ghost"}),
+		// the JSON patch library panics on these instead of returning an error
+		panicPatches[0], panicPatches[1], panicPatches[2],
 	}
 }
 
 func checkC17(c *hx.Ctx) {
-	c.Rule("documents reached by random valid patch sequences from {} and lists of 1-6 patches over all eight actions drawn from a small id pool (so adds hit existing ids, removes hit present and absent ids), replace patches on documents holding aliases and custom members, and lists whose k-th patch fails for every k; oracles on the REAL DocumentComposer in crash-isolated workers: input document unchanged by the call, two calls agree, error => no document, success == applying the patches one at a time, result == independent ordered-set model; PatchesFromDocument(d) applied to {} must reproduce d for generated documents with non-empty well-formed sections and member names free of '~' and '/'; non-trivial = list with >= 2 patches or a failing patch; distinct = distinct (document, patch list)")
+	c.Rule("documents reached by random valid patch sequences from {} and lists of 1-6 patches over all eight actions drawn from a small id pool (so adds hit existing ids, removes hit present and absent ids), replace patches on documents holding aliases and custom members, lists with a replace patch in the middle followed by removals of entries it introduced, and lists whose k-th patch fails for every k (also with a replace patch after the failing one, and with patches the JSON patch library panics on); oracles on the REAL DocumentComposer in crash-isolated workers: input document unchanged by the call, two calls agree, error => no document, success == applying the patches one at a time, result == independent ordered-set model; PatchesFromDocument(d) applied to {} must reproduce d for generated documents with non-empty well-formed sections and member names free of '~' and '/'; non-trivial = list with >= 2 patches or a failing patch; distinct = distinct (document, patch list)")
 	pool := hx.NewPool(c, "compose", 16, 4*1024*1024, 30*time.Second)
 	defer pool.Close()
 	nCases := c.N(12000, 300000)
@@ -65,6 +67,13 @@ func checkC17(c *hx.Ctx) {
 			k := r.Intn(len(patches) + 1)
 			patches = append(append(append([]interface{}{}, patches[:k]...), hx.Pick(r, fails)), patches[k:]...)
 			class = fmt.Sprintf("failing-patch-at-%d", k)
+			if r.Bool() {
+				// a replace patch somewhere after the failing one must not rescue the list
+				j := k + 1 + r.Intn(len(patches)-k)
+				rp := patchReplace([]interface{}{genKeyEntry(r, "rk0")}, []interface{}{genService(r, "rs0")})
+				patches = append(append(append([]interface{}{}, patches[:j]...), rp), patches[j:]...)
+				class = "failing-patch-before-replace"
+			}
 		case 1: // replace on a populated document
 			var ks, ss []interface{}
 			for n := 0; n < r.Intn(3); n++ {
@@ -78,6 +87,27 @@ func checkC17(c *hx.Ctx) {
 				patches = append(patches, genPatches(r, 2, ids)...)
 			}
 			class = "replace"
+		case 3: // replace in the middle of a list, followed by removals of entries it introduced (not the last ones)
+			var ks, ss []interface{}
+			nk, ns := 2+r.Intn(3), 2+r.Intn(3)
+			for n := 0; n < nk; n++ {
+				ks = append(ks, genKeyEntry(r, fmt.Sprintf("rk%d", n)))
+			}
+			for n := 0; n < ns; n++ {
+				ss = append(ss, genService(r, fmt.Sprintf("rs%d", n)))
+			}
+			patches = append(genPatches(r, 2, ids), patchReplace(ks, ss))
+			for n := 0; n < 1+r.Intn(3); n++ {
+				if r.Bool() {
+					patches = append(patches, patchRemoveKeys(fmt.Sprintf("rk%d", r.Intn(nk-1))))
+				} else {
+					patches = append(patches, map[string]interface{}{"action": "remove-services", "ids": []interface{}{fmt.Sprintf("rs%d", r.Intn(ns-1))}})
+				}
+			}
+			if r.Bool() {
+				patches = append(patches, genPatches(r, 2, ids)...)
+			}
+			class = "replace-then-remove"
 		case 2: // add existing id at a non-last position, then new ids
 			for n := 0; n < 3; n++ {
 				doc, _ = ref.ApplyPatch(doc, patchAddServices(genService(r, ids.svcs[n])))
@@ -188,6 +218,8 @@ func checkC17(c *hx.Ctx) {
 	c.Floor("model_compared:valid-list", 500)
 	c.Floor("model_compared:replace", 100)
 	c.Floor("model_compared:add-existing-id", 100)
+	c.Floor("model_compared:replace-then-remove", 100)
+	c.Floor("model_compared:failing-patch-before-replace", 50)
 	c.Floor("failed_lists", 200)
 	c.Floor("applied_lists", 500)
 	c.Floor("document_round_trips", 500)
